@@ -50,6 +50,14 @@ var c23WrapperPkgs = []string{
 	"kvdb/flaggedproducer", "kvdb/cachedproducer", "kvdb/memorydb", "kvdb/leveldb", "kvdb/pebble", "kvdb/flushable",
 }
 
+// c23WrapperRoles: the packages that must contribute at least one inspected wrapper type (vacuity guard of T20:
+// one per role — prefixing, locking, read-only view, key filter, absent-is-error, write batching, dirty flag,
+// callback store, pool handle, batch replayer). memorydb and pebble declare no wrapper methods of their own.
+var c23WrapperRoles = []string{
+	"kvdb/table", "kvdb/synced", "kvdb/readonlystore", "kvdb/skipkeys", "kvdb/nokeyiserr", "kvdb/batched",
+	"kvdb/flaggedproducer", "kvdb/cachedproducer", "kvdb/flushable", "kvdb/leveldb",
+}
+
 var c23FlushableTypes = map[string]bool{"closeDropWrapped": true}
 
 // c23CalleeExceptions (T20): (wrapper method, callee on the wrapped value) pairs whose names differ, one line of reason each.
@@ -105,7 +113,8 @@ func init() {
 			"(f) memorydb is the flushable overlay over the always-empty devnulldb (all devnulldb methods return zero results); the overlay stores a copy on Put and returns a copy on Get. "+
 			"(g) T20 over every wrapper type of kvdb (table, synced, readonlystore, skipkeys, nokeyiserr, batched, flaggedStore, StoreWithFn, closeDropWrapped, the two replayers): each call on the wrapped key-value value (directly, through a single-definition local, or inside an unexported helper method all of whose callers are that one operation) targets the same-named method unless the pair is in the frozen exception table; a key-value method that has a same-named delegate (own call, or a module helper that always makes it) passes it on every feasible path to a non-error exit (return or end of body; edges implying err != nil and edges contradicted by a constant local boolean flag are not followed), and one that has none is in the frozen intercept table; unused table entries are noted, not reported; readonlystore rejects every Writer method on the store and on its batches; every synced method holds the shared mutex (write mode for mutators) while delegating; a parameterless numeric observer of the wrapped value (ValueSize) is admitted in any method of a wrapper type to which the exception table grants it; batched.Flush never exits without batch.Write(). "+
 			"(h) Flushable as a map over a disk backend: once flush() has emptied the overlay every exit passes batch.Write() (no size test: ValueSize counts value bytes, empty values and deletes weigh 0); GetSnapshot's copying loop puts every overlay entry, tombstones included, into the snapshot's own tree. "+
-			"Facts spelled in small helpers are decided through them: boolean predicate helpers on branch edges (not-found tests), straight-line byte-slice builders (range lower bound), a helper that receives the replay writer (bound parameters, error handed up). "+
+			"(i) Representation of present/absent in the memory overlay and its batch (C23.flushable.presence): every value stored into an overlay tree is the untyped nil tombstone, an entry handed through unchanged from a tree read, or a []byte that is certainly non-nil (a possibly-nil []byte becomes a typed nil in the tree's interface element: Has says present, Get returns nil); every batch entry's value is the nil literal (delete) or non-nil whenever the caller's value is non-nil, also when empty (append to a nil slice is nil for an empty value: the put is replayed as a delete); nil-ness is followed through copies, helpers, guards, single-value assertions behind != nil and the callers of unexported functions. "+
+			"Facts spelled in small helpers are decided through them: boolean predicate helpers on branch edges (not-found tests), straight-line byte-slice builders (range lower bound, make+copy included), a helper that receives the replay writer (bound parameters, error handed up), a shared body that every exit of a reader hands up (Get of store and snapshot merged into one function), a private helper of a wrapper operation inheriting that operation's exception-table grants. Instance floors only guard against vacuity (one per role). "+
 			"NOT decided: equivalence of the backends and wrapper stacks on operation histories, byte-order/successor arithmetic of the libraries, iterator value semantics (lifetime and nil-ness of Key()/Value() slices), lifecycle after Close/Release (double Release of table iterators and pebble snapshots), key translation of tables (C24), overlay semantics of Flushable (C22).",
 		[]string{
 			"goleveldb and pebble API contracts: ErrNotFound means absent; a pebble value is valid until closer.Close(); First must precede Next; util.BytesPrefix(p) returns {Start: p (aliased), Limit: successor(p) or nil}",
@@ -127,6 +136,7 @@ func runC23(c *core.Ctx) {
 	c23ReadonlyClause(c)
 	c23SyncedClause(c)
 	c23OverlayClauses(c)
+	c23PresenceClause(c)
 }
 
 // ---------------------------------------------------------------------------
@@ -610,9 +620,11 @@ func c23NotFoundClause(c *core.Ctx) {
 		n := 0
 		for _, be := range []struct{ pkg, lib string }{{c23Ldb, c23LibL}, {c23Pbl, c23LibP}} {
 			has, get := c23ReaderFuncs(c, be.pkg)
-			for _, f := range append(append([]*core.FuncInfo(nil), has...), get...) {
-				who := c23Short(f.Name)
-				isHas := f.Obj.Name() == "Has"
+			for _, decl := range append(append([]*core.FuncInfo(nil), has...), get...) {
+				who := c23Short(decl.Name)
+				isHas := decl.Obj.Name() == "Has"
+				// the reader's body may be shared with its sibling in a helper that every exit hands up (c23Carrier)
+				f, keyVar := c23Carrier(decl, func(g *core.FuncInfo) bool { return c23Lookup(g, be.lib) != nil }, 2)
 				lk := c23Lookup(f, be.lib)
 				if lk == nil {
 					c.Undecided(who, "T16c", f.Pos(), "expected exactly one library lookup (Get/Has) in this reader")
@@ -624,7 +636,7 @@ func c23NotFoundClause(c *core.Ctx) {
 					continue
 				}
 				// the caller's key, unchanged
-				okKey := len(lk.Call.Args) >= 1 && varOf(f, lk.Call.Args[0]) == f.Param(0) && f.Param(0) != nil
+				okKey := len(lk.Call.Args) >= 1 && keyVar != nil && varOf(f, lk.Call.Args[0]) == keyVar
 				c.Check(okKey, who+"|looks up the caller's key", "provenance", lk.Pos(), "the library is asked for the key parameter itself", "the library is asked for something else than the caller's key")
 				// the tests may be spelled in the reader or in a boolean predicate helper it branches on (c23Lift)
 				names := c23NotFound[be.pkg]
@@ -743,8 +755,10 @@ func c23PebbleValueClause(c *core.Ctx) {
 	c.Clause("C23.pebble.value", func() {
 		_, gets := c23ReaderFuncs(c, c23Pbl)
 		n := 0
-		for _, f := range gets {
-			who := c23Short(f.Name)
+		for _, decl := range gets {
+			who := c23Short(decl.Name)
+			// the body may be shared by the store's and the snapshot's Get (c23Carrier)
+			f, _ := c23Carrier(decl, func(g *core.FuncInfo) bool { return c23Lookup(g, c23LibP) != nil }, 2)
 			lk := c23Lookup(f, c23LibP)
 			c.Need(lk != nil, who+": one pebble lookup")
 			as := c23AssignOfCall(f, lk.Call)
@@ -843,6 +857,22 @@ func c23EmptyClause(c *core.Ctx) {
 			fs = append(append(fs, h...), g...)
 		}
 		fs = append(fs, c.Fn(flRead+".Has"), c.Fn(flRead+".Get"))
+		nReaders := len(fs)
+		// a reader whose body lives in a shared helper (c23Carrier) is inspected there as well
+		seen := map[*core.FuncInfo]bool{}
+		for _, f := range fs {
+			seen[f] = true
+		}
+		for _, f := range fs[:nReaders] {
+			lib := c23LibL
+			if core.RelPkg(f.Pkg.PkgPath) == c23Pbl {
+				lib = c23LibP
+			}
+			if g, _ := c23Carrier(f, func(x *core.FuncInfo) bool { return c23Lookup(x, lib) != nil }, 2); !seen[g] {
+				seen[g] = true
+				fs = append(fs, g)
+			}
+		}
 		for _, f := range fs {
 			ok := true
 			var bad token.Pos
@@ -868,7 +898,7 @@ func c23EmptyClause(c *core.Ctx) {
 			}
 			c.Check(ok, c23Short(f.Name), "T16c (empty value is present)", bad, "presence and result do not depend on len(value)", "the reader inspects a length: a key stored with an empty value can be reported as absent (\"Empty values are distinct from absent keys\")")
 		}
-		c.ExpectAtLeast("reader functions of the three backends", len(fs), 10)
+		c.ExpectAtLeast("reader functions of the three backends", nReaders, 10)
 	})
 }
 
@@ -961,7 +991,7 @@ func c23PebbleIteratorClause(c *core.Ctx) {
 				return true
 			})
 		}
-		c.ExpectAtLeast("pebble iterator constructions", nLit, 2)
+		c.ExpectAtLeast("pebble iterator constructions", nLit, 1)
 		// Release: library Close at most once
 		cls := rel.CallsTo(libClose)
 		c.Need(len(cls) >= 1, "Release closes the library iterator")
@@ -993,7 +1023,7 @@ func c23PebbleIteratorClause(c *core.Ctx) {
 func c23RangeClause(c *core.Ctx) {
 	c.Clause("C23.range", func() {
 		p := c.P
-		nCallers := 0
+		nCallers, nIteratees := 0, 0
 		for _, pkg := range []string{c23Ldb, c23Pbl} {
 			be := c23Short(pkg)
 			lower, upper, prefixHelper := c23RangeFields[pkg][0], c23RangeFields[pkg][1], c23RangeFields[pkg][2]
@@ -1020,6 +1050,17 @@ func c23RangeClause(c *core.Ctx) {
 					}
 					c.Check(okLib, who+"|range goes to the library iterator", "provenance", cs.Pos(), "the helper's result is the library iterator's range argument", "the computed range is not what the library iterator is opened with")
 				}
+			}
+			// every NewIterator of the backend (store and snapshot) derives its range from the helper, directly or
+			// through a function it calls (an obligation on every such method, not a number of call sites)
+			for _, tn := range c23TypesImplementing(c, pkg, c23Iface(c, "Iteratee")) {
+				f := declaresMethod(p, tn, "NewIterator")
+				if f == nil {
+					continue
+				}
+				nIteratees++
+				uses := f.SitesMay(func(x *core.CallSite) bool { return x.Name == pkg+".bytesPrefixRange" }, 2)
+				c.Check(len(uses) > 0, c23Short(f.Name)+"|range comes from bytesPrefixRange", "T16b SiblingAgreement", f.Pos(), "NewIterator obtains its range from the backend's bytesPrefixRange", "this NewIterator does not compute its range with bytesPrefixRange: prefix/start are translated differently from its siblings")
 			}
 			// the prefix helper is applied to the prefix parameter
 			ph := h.CallsTo(prefixHelper)
@@ -1084,7 +1125,8 @@ func c23RangeClause(c *core.Ctx) {
 				}
 			}
 		}
-		c.ExpectAtLeast("NewIterator call sites of bytesPrefixRange (2 stores + 2 snapshots)", nCallers, 4)
+		c.ExpectAtLeast("call sites of bytesPrefixRange", nCallers, 1)
+		c.ExpectAtLeast("NewIterator methods of the two disk backends (store and snapshot roles)", nIteratees, 4)
 
 		// pebble's local copy of the prefix successor
 		bp := c.Fn(c23Pbl + ".bytesPrefix")
@@ -1524,10 +1566,10 @@ func c23MemoryClause(c *core.Ctx) {
 		}
 		c.Check(len(p.MethodsOf("kvdb/memorydb.Database")) == 0, "memorydb.Database adds no methods", "T20", token.NoPos, "every Store method is promoted unchanged from the overlay", "memorydb.Database overrides Store methods: inspect them")
 		// the always-empty store returns zero results everywhere
-		nz := 0
 		for _, tn := range []string{"kvdb/devnulldb.Database", "kvdb/devnulldb.batch", "kvdb/devnulldb.iterator"} {
+			// vacuity guard: each of the three roles (store, batch, iterator) has methods to inspect
+			c.ExpectAtLeast("methods of "+c23Short(tn), len(p.MethodsOf(tn)), 1)
 			for _, f := range p.MethodsOf(tn) {
-				nz++
 				ok := true
 				var bad token.Pos
 				for _, rp := range f.ReturnPoints() {
@@ -1540,21 +1582,53 @@ func c23MemoryClause(c *core.Ctx) {
 				c.Check(ok, c23Short(f.Name)+"|always empty", "constant results", bad, "returns only zero values / fresh empty objects: absent for every key, no iteration, no error", "the always-empty store returns a non-zero result: the memory database would see content below its overlay")
 			}
 		}
-		c.ExpectAtLeast("devnulldb methods", nz, 20)
 		// overlay: Put stores a copy (non-nil for an empty value), Get returns a copy
 		lput := c.Fn(flT + ".put")
-		tp := lput.CallsTo(rbtP + "Tree.Put")
-		okPut := len(tp) == 1 && len(tp[0].Call.Args) == 2
-		if okPut {
-			cp := isCallTo(lput, tp[0].Call.Args[1], c23Copy)
-			okPut = cp != nil && varOf(lput, cp.Args[0]) == lput.Param(1)
+		// what put hands to the tree — directly, or through a function of the module that stores into a tree —
+		// is a copy of the value parameter in memory the overlay allocated itself (any copy idiom: CopyBytes,
+		// bytes.Clone, append to a fresh base, a straight helper), and the caller's slice itself goes nowhere else
+		valP := lput.Param(1)
+		isTreePut := func(x *core.CallSite) bool { return x.Name == rbtP+"Tree.Put" }
+		nCopies, leak := 0, false
+		for _, cs := range lput.Calls() {
+			if cs.IsConv || strings.HasPrefix(cs.Name, "builtin.") || cs.Name == c23Copy || cs.Name == "bytes.Clone" {
+				continue // sizing and copying read the caller's slice, they do not keep it
+			}
+			stores := isTreePut(cs)
+			if fn, ok := cs.Callee.(*types.Func); ok && !stores {
+				if g := p.FuncOf(fn); g != nil && g != lput && len(g.SitesMay(isTreePut, 1)) > 0 {
+					stores = true
+				}
+			}
+			for _, a := range cs.Call.Args {
+				if valP == nil || !mentionsObj(lput, resolveLocal(lput, a), valP) {
+					continue
+				}
+				val := c23EvalBytes(lput, a, nil, 2)
+				if val.OK && val.Fresh && len(val.Parts) == 1 && val.Parts[0].V == valP {
+					if stores {
+						nCopies++
+					}
+					continue
+				}
+				if t := lput.Info().TypeOf(a); t != nil {
+					if _, isSlice := t.Underlying().(*types.Slice); isSlice {
+						leak = true
+					}
+				}
+			}
 		}
+		okPut := valP != nil && nCopies >= 1 && !leak
 		c.Check(okPut, "overlay stores a private copy of the value", "alias", lput.Pos(), "modified.Put(·, CopyBytes(value)): later changes of the caller's slice do not change the map, and an empty value is stored as a non-nil empty slice (present)", "the overlay keeps the caller's slice: the stored value changes when the caller reuses its buffer")
 		get := c.Fn(flRead + ".Get")
 		okGet := false
 		for _, rp := range get.ReturnPoints() {
 			r := rp.Node().(*ast.ReturnStmt)
-			if len(r.Results) == 2 && isCallTo(get, r.Results[0], c23Copy) != nil {
+			if len(r.Results) != 2 {
+				continue
+			}
+			// any copy idiom of the overlay entry (the entry's bytes in freshly allocated memory)
+			if val := c23EvalBytes(get, r.Results[0], nil, 2); val.OK && val.Fresh && len(val.Parts) == 1 {
 				okGet = true
 			}
 		}
@@ -1711,14 +1785,17 @@ func c23WrapperClause(c *core.Ctx) {
 		p := c.P
 		kvMethods := c23KVMethodNames(c)
 		ws := c23Wrappers(c)
-		nMethods, nTypes := 0, 0
+		nMethods := 0
+		typesOfPkg := map[string]int{}
 		usedExc := map[string]bool{}
 		for _, w := range ws {
 			ms := p.MethodsOf(w.name)
 			if len(ms) == 0 {
 				continue
 			}
-			nTypes++
+			if i := strings.LastIndex(w.name, "."); i >= 0 {
+				typesOfPkg[w.name[:i]]++
+			}
 			w := w
 			for _, f := range ms {
 				nMethods++
@@ -1743,6 +1820,23 @@ func c23WrapperClause(c *core.Ctx) {
 					// a private helper that carries (part of) one operation: every caller is the wrapper's cm
 					if !kvMethods[m] && c23HelperOf(p, f, w.name, cm) {
 						continue
+					}
+					// a private helper of another operation op of this wrapper (every caller is op) makes the call
+					// on op's behalf: what the table grants to op ("op->cm") it grants to the part of op that was
+					// moved into the helper (a loop condition turned into a predicate method)
+					if !kvMethods[m] {
+						granted := false
+						for _, opf := range ms {
+							op := opf.Obj.Name()
+							k := c23Short(w.name) + "." + op + "->" + cm
+							if _, ok := c23CalleeExceptions[k]; ok && opf != f && c23HelperOf(p, f, w.name, op) {
+								usedExc[k] = true
+								granted = true
+							}
+						}
+						if granted {
+							continue
+						}
 					}
 					// a numeric observer of the wrapped value (ValueSize) carries no key or value and changes
 					// nothing: which method of the wrapper consults it is bookkeeping, not a translation of an
@@ -1831,8 +1925,13 @@ func c23WrapperClause(c *core.Ctx) {
 			}
 		}
 		c.Check(okWr, "batched.Store.Flush|always writes the pending batch", "T2 Dominates", noWr, "every exit of Flush is dominated by batch.Write()", "Flush can return without writing the pending batch: queued operations (e.g. deletes and empty values, which have value size 0) stay unwritten while the caller believes them flushed")
-		c.ExpectAtLeast("wrapper types with declared methods", nTypes, 23)
-		c.ExpectAtLeast("wrapper methods inspected", nMethods, 84)
+		// vacuity guards: every wrapper role (package) contributed at least one inspected wrapper type. How many
+		// types and methods a package has is not an obligation (helpers come and go); what a method owes is
+		// decided per method above, and a reader override that loses its sibling is decided below.
+		for _, pkg := range c23WrapperRoles {
+			c.ExpectAtLeast("wrapper types with declared methods in "+pkg, typesOfPkg[pkg], 1)
+		}
+		c.ExpectAtLeast("wrapper methods inspected", nMethods, 1)
 	})
 }
 
@@ -1931,7 +2030,20 @@ func c23SyncedClause(c *core.Ctx) {
 		}
 		c.Fld(mu)
 		res := core.RunLockset(c.P, spec)
-		n := reportLockset(c, res, c23SyncedExceptions, nil)
-		c.ExpectAtLeast("synced (method, wrapped field) delegation groups", n, 23)
+		reportLockset(c, res, c23SyncedExceptions, nil)
+		// vacuity guard: each wrapped field (one per role: store, reader, snapshot, batch, iterator) is seen
+		// delegating at least once; the number of methods per type is not an obligation
+		perField := map[string]int{}
+		for _, a := range res.Accesses {
+			perField[a.Field]++
+		}
+		var guarded []string
+		for f := range spec.Guarded {
+			guarded = append(guarded, f)
+		}
+		sort.Strings(guarded)
+		for _, f := range guarded {
+			c.ExpectAtLeast("delegations through "+short(f), perField[f], 1)
+		}
 	})
 }
